@@ -75,7 +75,7 @@ func TestC23(t *testing.T) {
 			}
 		}
 		covered = append(covered, name)
-		r.Require(name+":accepted", trials*3*3)
+		r.Require(name+":accepted", trials*3*4)
 		r.Require(name+":rejected", trials*3*25)
 		r.Require(name+":accepted_at_confirmation_boundary", trials*3)
 		r.Require(name+":rejected_one_short_of_confirmations", trials*2)
@@ -129,6 +129,21 @@ func runChain(r *kit.Run, rng *rand.Rand, e *es.Env, name string, chainID, w uin
 		stB.Commit(ccmc, d.slot, d.msg)
 		stB.Commit(other, d.slot, d.msg)
 	}
+	// commitments that differ from keccak256(message) in a single byte (first / last), and a
+	// message whose hash has a leading zero byte (stored trimmed, as the EVM does)
+	nearFirst, nearLast := es.RandTxParam(rng, targetChain), es.RandTxParam(rng, targetChain)
+	slotNF, slotNL, slotLZ := es.RandHash(rng), es.RandHash(rng), es.RandHash(rng)
+	hf1 := es.Keccak(nearFirst.Serialize())
+	hf1[0] ^= 0x80
+	stB.CommitRaw(ccmc, slotNF, hf1)
+	hl1 := es.Keccak(nearLast.Serialize())
+	hl1[31] ^= 0x01
+	stB.CommitRaw(ccmc, slotNL, hl1)
+	lz := es.RandTxParam(rng, targetChain)
+	for es.Keccak(lz.Serialize())[0] != 0 {
+		lz.Args = append(lz.Args[:0], byte(rng.Intn(256)), byte(rng.Intn(256)), byte(rng.Intn(256)))
+	}
+	stB.Commit(ccmc, slotLZ, lz.Serialize())
 	stF := stB.Clone() // the fork block's state: one more deposit
 	fp := es.RandTxParam(rng, targetChain)
 	fdep := dep{slot: es.RandHash(rng), msg: fp.Serialize(), param: fp}
@@ -322,6 +337,9 @@ func runChain(r *kit.Run, rng *rand.Rand, e *es.Env, name string, chainID, w uin
 		d = take()
 		add("message-empty", h0, hon(d), nil, reject)
 	}
+	add("commitment-differs-in-first-byte", h0, stB.Prove(ccmc, slotNF), nearFirst.Serialize(), reject)
+	add("commitment-differs-in-last-byte", h0, stB.Prove(ccmc, slotNL), nearLast.Serialize(), reject)
+	add("valid-hash-with-leading-zero-byte", h0, stB.Prove(ccmc, slotLZ), lz.Serialize(), accept)
 	add("fork-block-deposit", hf, stF.Prove(ccmc, fdep.slot), fdep.msg, reject)
 	add("fork-block-deposit-at-other-height", h0, stF.Prove(ccmc, fdep.slot), fdep.msg, reject)
 	d = take()
